@@ -601,6 +601,15 @@ func genRouter(profile string) func(rng *rand.Rand, n int, tier string, emit fun
 					if profile == "C07" {
 						if rng.Intn(3) == 0 {
 							p = hostileBytes(rng)
+							if len(g.order) > 0 {
+								// the regex fragment is modelled over bytes, Go matches runes: with regex
+								// routes around, the hostile stream stays within ASCII (DESIGN section 3)
+								b := []byte(p)
+								for i := range b {
+									b[i] &= 0x7f
+								}
+								p = string(b)
+							}
 						}
 						if rng.Intn(6) == 0 {
 							m = []string{"", "get", "FOO", "G E T", "\x00", "PROPFIND"}[rng.Intn(6)]
